@@ -98,7 +98,7 @@ def run(prog, rep, tier):
             rep.unk("R6.global-stream", w, "%s calls a sampler that is looked up at run time (%s): not read" % (name, opaque[0].target))
             continue
         if gens or len(draws) != 1:
-            rep.bad("R6.global-stream", w, "%s must draw exactly once from numpy's global stream (found %d global draws, %d generator draws)" % (name, len(draws), len(gens)))
+            rep.bad_form("R6.global-stream", w, "%s must draw exactly once from numpy's global stream (found %d global draws, %d generator draws)" % (name, len(draws), len(gens)))
             continue
         c = draws[0]
         rep.check("R6.global-stream", c.target == target, fwhere(f, c.node), "%s draws with %s (global legacy stream)" % (name, target),
